@@ -283,3 +283,58 @@ impl<'de, KG: KeGroup> serde::Deserialize<'de> for SimHsm<KG> {
             .map_err(|e| D::Error::custom(format!("{e:?}")))
     }
 }
+
+
+// ---------------------------------------------------------------- SimHsmWide
+
+/// An external key whose serialized form is a 200-byte handle (longer than two
+/// scalars of any group): the raw scalar followed by 0xA5 padding. Used only
+/// by the stand-alone decoder batch of C12 (no fault plan, no call log).
+pub struct SimHsmWide<KG: KeGroup>(PrivateKey<KG>);
+
+pub type WideLen = generic_array::typenum::U200;
+
+impl<KG: KeGroup> SimHsmWide<KG> {
+    pub fn wrap(sk: PrivateKey<KG>) -> Self {
+        SimHsmWide(sk)
+    }
+}
+
+impl<KG: KeGroup> Clone for SimHsmWide<KG> {
+    fn clone(&self) -> Self {
+        SimHsmWide(self.0.clone())
+    }
+}
+
+impl<KG: KeGroup> SecretKey<KG> for SimHsmWide<KG> {
+    type Error = HsmErr;
+    type Len = WideLen;
+
+    fn diffie_hellman(&self, pk: PublicKey<KG>) -> Result<GenericArray<u8, KG::PkLen>, InternalError<Self::Error>> {
+        self.0.diffie_hellman(pk).map_err(|e| InternalError::into_custom(e))
+    }
+
+    fn public_key(&self) -> Result<PublicKey<KG>, InternalError<Self::Error>> {
+        self.0.public_key().map_err(|e| InternalError::into_custom(e))
+    }
+
+    fn serialize(&self) -> GenericArray<u8, Self::Len> {
+        let raw = self.0.serialize();
+        let mut out = GenericArray::<u8, WideLen>::default();
+        for (i, b) in out.iter_mut().enumerate() {
+            *b = if i < raw.len() { raw[i] } else { 0xA5 };
+        }
+        out
+    }
+
+    fn deserialize(input: &[u8]) -> Result<Self, InternalError<Self::Error>> {
+        use generic_array::typenum::Unsigned;
+        let n = <KG::SkLen as Unsigned>::USIZE;
+        if input.len() != 200 || input[n..].iter().any(|b| *b != 0xA5) {
+            return Err(InternalError::Custom(HsmErr(0)));
+        }
+        <PrivateKey<KG> as SecretKey<KG>>::deserialize(&input[..n])
+            .map(SimHsmWide)
+            .map_err(|e| InternalError::into_custom(e))
+    }
+}
